@@ -126,7 +126,12 @@ PROPERTIES = {
                 "then receive is the identity (C07_emu_end_to_end, with C06_roundtrip and C07_any_segmentation). E lines: "
                 "seeded histories on the REAL Emulator (Emulator.Receiver(), Dial(\"udp\", Addr()) endpoints with a Receiver "
                 "and a Transmitter, Emulator.TransmitFrame, TransmitFrame on endpoints - also closed ones -, Close) over real "
-                "loopback multicast; what every endpoint's Receiver returned over the whole history is compared with the model.",
+                "loopback multicast; what every endpoint's Receiver returned over the whole history is compared with the model. "
+                "ACTION-SEQUENCE TIE: harness/sockwire reads receiver.go and transmitter.go statement by statement; "
+                "Receiver.Receive and Transmitter.TransmitFrame must equal the programs receive_prog / transmit_prog of "
+                "Socketcan/Program.v, which C07_receive_program_is_model / C07_transmit_program_is_model prove to be the models "
+                "Receiver.receive / Transmitter.transmit when executed step by step (the other functions of the two files are "
+                "compared with reference texts); a difference is reported with the first differing statement.",
         "note": _NOTE + "Glue model boundary: ipv4.PacketConn (x/net) between udpTxRx and the sockets is not modelled; it "
                         "forwards Close and the deadline setters to the net.PacketConn it embeds (that field is replaced by a "
                         "scripted one through reflect/unsafe in the harness) but does not hand ReadFrom/WriteTo to a non-UDP "
